@@ -532,23 +532,30 @@ pub fn main(args: &[String]) -> i32 {
     let from: usize = args.iter().position(|a| a == "--from").map(|i| args[i + 1].parse().unwrap()).unwrap_or(0);
     let c09 = args.iter().any(|a| a == "--c09");
     let to: usize = args.iter().position(|a| a == "--to").map(|i| args[i + 1].parse().unwrap()).unwrap_or(usize::MAX);
-    let scenarios: Vec<Scenario> = read_ndjson(&args[0]).into_iter().map(|v| serde_json::from_value(v).expect("scenario shape")).collect();
+    // streamed: only the lines of this slice are parsed (the thorough files have hundreds of thousands of lines and every
+    // slice runs in its own process)
+    use std::io::BufRead;
+    let file = std::io::BufReader::new(std::fs::File::open(&args[0]).expect("scenario file"));
     let mut obs = Obs::default();
     let mut progress = std::fs::OpenOptions::new().create(true).append(true).open(&args[2]).expect("progress file");
-    for i in from..scenarios.len().min(to) {
+    let mut total = 0usize;
+    for (i, line) in file.lines().enumerate() {
+        total = i + 1;
+        if i < from || i >= to || obs.problems.len() > 4000 {
+            continue;
+        }
+        let line = line.expect("readable line");
+        let sc: Scenario = serde_json::from_str(&line).expect("scenario shape");
         // single-threaded on purpose: the progress file names the map being processed
         let _ = writeln!(progress, "{i}");
         let _ = progress.flush();
-        run_map(&scenarios[i], i, c09, &mut obs);
-        if obs.problems.len() > 4000 {
-            break;
-        }
+        run_map(&sc, i, c09, &mut obs);
     }
     let _ = writeln!(progress, "done");
-    let out = json!({"scenarios": scenarios.len(), "from": from, "calls": obs.calls, "skipped": obs.skipped, "problems": obs.problems.len(),
+    let out = json!({"scenarios": total, "from": from, "calls": obs.calls, "skipped": obs.skipped, "problems": obs.problems.len(),
         "records": obs.problems.iter().take(200).collect::<Vec<_>>()});
     std::fs::write(&args[1], serde_json::to_string(&out).unwrap()).unwrap();
-    println!("corner-replay: maps={} from={} calls={} problems={}", scenarios.len(), from, obs.calls, obs.problems.len());
+    println!("corner-replay: maps={} from={} calls={} problems={}", total, from, obs.calls, obs.problems.len());
     0
 }
 
